@@ -272,4 +272,18 @@ MUTANTS += [
     dict(prop='C15', name='rr-two-packets-per-visit-when-long-queue', edits=[(RRF, "                    yield env.process(self.send_packet(packet))", "                    yield env.process(self.send_packet(packet))\n                    if self.queue_count[flow_id] > 3:\n                        packet = yield store.get()\n                        yield env.process(self.send_packet(packet))")]),
     dict(prop='C15', name='drr-sends-unaffordable-head', edits=[(DRRF, "                        if packet.size <= self.deficit[class_id]:\n                            yield env.process", "                        if packet.size <= self.deficit[class_id] + 100:\n                            yield env.process")]),
 ]
+
+TIMER = 'onl/utils/timer.py'
+MUTANTS += [
+    # ---- C19
+    dict(prop='C19', name='restart-forgets-to-interrupt-sleeper', edits=[(TIMER, "            self.proc.interrupt(\"restart timer\")\n", "            pass\n")]),
+    dict(prop='C19', name='stop-does-not-set-flag', edits=[(TIMER, "        self.stopped = True\n        self.expire_time = self.env.now", "        self.expire_time = self.env.now")]),
+    dict(prop='C19', name='auto-restart-rearms-from-start-time', edits=[(TIMER, "                        self.expire_time = env.now + self.timeout", "                        self.expire_time = self.start_time + 2 * self.timeout")]),
+    dict(prop='C19', name='args-passed-as-one-tuple', edits=[(TIMER, "                    self.timeout_callback(*self.args, **self.kwargs)", "                    self.timeout_callback(self.args, **self.kwargs) if len(self.args) > 1 else self.timeout_callback(*self.args, **self.kwargs)")]),
+    dict(prop='C19', name='restart-keeps-old-period-for-auto', edits=[(TIMER, "        self.start_time = self.env.now\n        self.timeout = timeout\n", "        self.start_time = self.env.now\n        self.timeout = timeout if not self.auto_restart else self.timeout\n")]),
+    dict(prop='C19', name='restart-from-callback-interrupts-again', edits=[(TIMER, "        if self.env.active_process is self.proc:\n", "        if self.env.active_process is self.proc and self.auto_restart:\n")]),
+    dict(prop='C19', name='stop-ignored-at-expiry-instant', edits=[(TIMER, "                if not self.stopped:", "                if not self.stopped or self.expire_time == env.now and self.start_time + self.timeout == env.now:")]),
+    dict(prop='C19', name='restart-of-dead-timer-raises-again', edits=[(TIMER, "        if self.proc.is_alive:", "        if not self.proc.processed:")]),
+    dict(prop='C19', name='kwargs-dropped', edits=[(TIMER, "self.timeout_callback(*self.args, **self.kwargs)", "self.timeout_callback(*self.args)")]),
+]
 MUTANTS.sort(key=lambda m: (m['prop'], m['name']))
